@@ -16,11 +16,17 @@ Property theorems only; helper lemmas and the specification vocabulary live in
 * `matchCount n row` := number of `true` among the first `n` row entries;
 * `Forest`, `ancestors` are the C03 vocabulary.
 
-All theorems are about `Ccp.Model.Edit.step`, for all states and payloads.  Object handles
-(`i`) are line numbers of the committed tree and the model only accepts them on a state
-without uncommitted changes (`dirty = false`) — the harness skips such calls on both
-sides (`dirtyHandle`).  Regular expressions are oracle data: `row[i]` says whether the
-regex matched line `i`, `reSub` carries the substituted text.
+All theorems are about `Ccp.Model.Edit.step`, for all states and payloads.  A state holds
+a list of items (text + identity: the committed line number of the object, `none` for a
+line created since the last commit); `s.texts` is the list of their texts.  An object
+handle `h` is a committed line number.  The operations that find their object by
+identity (object-level inserts, `replace_text`, `re_sub`) resolve it with `posOf` to its
+current position `p` and work on states with uncommitted changes as well
+(`handle_position`); `delete` and `append_to_family` index by the stored line number and
+are only modelled on states without uncommitted changes.  A handle that cannot be
+resolved is answered `dirtyHandle` — the harness skips such calls on both sides.  Regular
+expressions are oracle data: `row[i]` says whether the regex matched line `i`, `reSub`
+carries the substituted text.
 -/
 namespace Ccp.C06
 open Ccp.Tree Ccp.Edit Ccp.Py
@@ -65,13 +71,15 @@ theorem insert_spec (s : S) (k : Int) (txt : Str) (hnf : NoFilter s) :
     (step s (.insert k txt)).1.texts
       = s.texts.take (insertPos s.texts.length k) ++ txt :: s.texts.drop (insertPos s.texts.length k) := by
   refine ⟨rfl, ?_⟩
-  simp only [Edit.step, edited_texts s hnf, pyInsert_eq]
+  simp only [Edit.step, edited_texts s hnf, pyInsert_map, fresh_text, ← pyInsert_eq]
+  rfl
 
 /-- **`ConfigList.append(txt)`** always succeeds and adds the line at the end. -/
 theorem append_spec (s : S) (txt : Str) (hnf : NoFilter s) :
     (step s (.append txt)).2 = .ok () ∧ (step s (.append txt)).1.texts = s.texts ++ [txt] := by
   refine ⟨rfl, ?_⟩
-  simp only [Edit.step, edited_texts s hnf]
+  simp only [Edit.step, edited_texts s hnf, List.map_append, List.map_cons, List.map_nil, fresh_text]
+  rfl
 
 /-- **`ConfigList.pop(k)`**: in range (`-n ≤ k < n`) it removes exactly the line at the
 normalised position; out of range it is an `IndexError` and the state is unchanged. -/
@@ -85,10 +93,13 @@ theorem pop_spec (s : S) (k : Int) (hnf : NoFilter s) :
   constructor
   · intro h
     obtain ⟨h1, h2⟩ := pyPop_in_range s.texts k h
-    simp only [Edit.step, h1, edited_texts s hnf]
-    exact ⟨trivial, trivial, h2⟩
+    rw [texts_length] at h
+    obtain ⟨h3, _⟩ := pyPop_in_range s.items k h
+    simp only [Edit.step, h3, edited_texts s hnf, map_eraseIdx', texts_length]
+    exact ⟨trivial, rfl, by rw [texts_length] at h2; exact h2⟩
   · intro h
-    simp only [Edit.step, pyPop_out_of_range s.texts k h]
+    rw [texts_length] at h
+    simp only [Edit.step, pyPop_out_of_range s.items k h]
 
 /-! ## list-level insert_before / insert_after (regex) -/
 
@@ -118,7 +129,7 @@ theorem listInsertBefore_spec (s : S) (row : List Bool) (txt : Str) (hnf : NoFil
     (step s (.listInsBefore false row txt)).1.texts = insertAtMatches false txt s.texts row := by
   have hb' : (isBlank txt && s.cfg.ignoreBlank) = false := by
     cases h1 : isBlank txt <;> cases h2 : s.cfg.ignoreBlank <;> simp_all
-  simp [Edit.step, hb', edited_texts s hnf]
+  simp [Edit.step, hb', edited_texts s hnf, insertAtMatches_map, items_map_text]
 
 /-- **list-level `insert_after(regex, txt)`**: one copy directly after every matching line. -/
 theorem listInsertAfter_spec (s : S) (row : List Bool) (txt : Str) (hnf : NoFilter s)
@@ -127,7 +138,7 @@ theorem listInsertAfter_spec (s : S) (row : List Bool) (txt : Str) (hnf : NoFilt
     (step s (.listInsAfter false row txt)).1.texts = insertAtMatches true txt s.texts row := by
   have hb' : (isBlank txt && s.cfg.ignoreBlank) = false := by
     cases h1 : isBlank txt <;> cases h2 : s.cfg.ignoreBlank <;> simp_all
-  simp [Edit.step, hb', edited_texts s hnf]
+  simp [Edit.step, hb', edited_texts s hnf, insertAtMatches_map, items_map_text]
 
 /-- A regex that matches no line changes nothing. -/
 theorem listInsert_no_match (after : Bool) (x : Str) (l : List Str) (row : List Bool)
@@ -154,58 +165,81 @@ theorem listInsert_errors (s : S) (e : Bool) (row : List Bool) (txt : Str) :
 
 /-! ## object-level insert_before / insert_after -/
 
-/-- **`obj.insert_before(txt)`** on the object at line `i` of a committed state: exactly one
-line is added, at position `i`, directly before the object's line (which moves to
-`i + 1`); everything else is unchanged and in order. -/
-theorem objInsertBefore_spec (s : S) (i : Nat) (txt : Str) (hnf : NoFilter s)
-    (hd : s.dirty = false) (hi : i < s.texts.length)
-    (hb : ¬ (isBlank txt = true ∧ s.cfg.ignoreBlank = true)) :
-    let new := (step s (.objInsBefore i txt)).1.texts
-    (step s (.objInsBefore i txt)).2 = .ok () ∧
-    new = s.texts.take i ++ txt :: s.texts.drop i ∧
-    new.length = s.texts.length + 1 ∧ new[i]? = some txt ∧ new[i + 1]? = s.texts[i]? ∧
-    new.eraseIdx i = s.texts := by
-  have hb' : (isBlank txt && s.cfg.ignoreBlank) = false := by
-    cases h1 : isBlank txt <;> cases h2 : s.cfg.ignoreBlank <;> simp_all
-  have hg : ¬ (s.dirty = true ∨ s.texts.length ≤ i) := by rw [hd]; simp; omega
-  have ht : (step s (.objInsBefore i txt)).1.texts = s.texts.take i ++ txt :: s.texts.drop i := by
-    simp [Edit.step, hg, hb', edited_texts s hnf]
-  have hr : (step s (.objInsBefore i txt)).2 = .ok () := by simp [Edit.step, hg, hb']
-  intro new
-  have hf := inserted_frame s.texts i txt (by omega)
-  simp only [new, ht]
-  exact ⟨hr, trivial, hf.1, hf.2.1, hf.2.2.2.2 i (Nat.le_refl _), hf.2.2.1⟩
+/-- How an object handle `h` (the committed line number of the object) is resolved: `posOf`
+returns the first position of the current list that holds that object; on a state without
+uncommitted changes that satisfies C07's invariant it is the handle itself. -/
+theorem handle_position (s : S) (h : Nat) :
+    (∀ p, posOf s.items h = some p →
+      p < s.texts.length ∧ (s.items[p]?).map Item.id = some (some h) ∧
+      ∀ q, q < p → (s.items[q]?).map Item.id ≠ some (some h)) ∧
+    (s.dirty = false → FreshInv s → posOf s.items h = if h < s.texts.length then some h else none) := by
+  constructor
+  · intro p hp
+    have := posOf_some hp
+    rw [texts_length]; exact this
+  · intro hd hinv
+    have h3 := (hinv hd).2.2
+    have h4 := (hinv hd).2.1
+    rw [h3, posOf_committed, h4]
 
-/-- **`obj.insert_after(txt)`**: exactly one line is added, at position `i + 1`, directly
-after the object's line (which stays at `i`); everything else is unchanged and in order. -/
-theorem objInsertAfter_spec (s : S) (i : Nat) (txt : Str) (hnf : NoFilter s)
-    (hd : s.dirty = false) (hi : i < s.texts.length)
+/-- **`obj.insert_before(txt)`** on the object `h`, currently at position `p` (also on a
+state with uncommitted changes — the code finds the object by identity): exactly one
+line is added, at position `p`, directly before the object's line (which moves to
+`p + 1`); everything else is unchanged and in order. -/
+theorem objInsertBefore_spec (s : S) (h p : Nat) (txt : Str) (hnf : NoFilter s)
+    (hp : posOf s.items h = some p)
     (hb : ¬ (isBlank txt = true ∧ s.cfg.ignoreBlank = true)) :
-    let new := (step s (.objInsAfter i txt)).1.texts
-    (step s (.objInsAfter i txt)).2 = .ok () ∧
-    new = s.texts.take (i + 1) ++ txt :: s.texts.drop (i + 1) ∧
-    new.length = s.texts.length + 1 ∧ new[i]? = s.texts[i]? ∧ new[i + 1]? = some txt ∧
-    new.eraseIdx (i + 1) = s.texts := by
+    let new := (step s (.objInsBefore h txt)).1.texts
+    (step s (.objInsBefore h txt)).2 = .ok () ∧
+    new = s.texts.take p ++ txt :: s.texts.drop p ∧
+    new.length = s.texts.length + 1 ∧ new[p]? = some txt ∧ new[p + 1]? = s.texts[p]? ∧
+    new.eraseIdx p = s.texts := by
   have hb' : (isBlank txt && s.cfg.ignoreBlank) = false := by
     cases h1 : isBlank txt <;> cases h2 : s.cfg.ignoreBlank <;> simp_all
-  have hg : ¬ (s.dirty = true ∨ s.texts.length ≤ i) := by rw [hd]; simp; omega
-  have ht : (step s (.objInsAfter i txt)).1.texts
-      = s.texts.take (i + 1) ++ txt :: s.texts.drop (i + 1) := by
-    simp [Edit.step, hg, hb', edited_texts s hnf]
-  have hr : (step s (.objInsAfter i txt)).2 = .ok () := by simp [Edit.step, hg, hb']
+  have hpl : p < s.texts.length := ((handle_position s h).1 p hp).1
+  have ht : (step s (.objInsBefore h txt)).1.texts = s.texts.take p ++ txt :: s.texts.drop p := by
+    have : (step s (.objInsBefore h txt)).1
+        = autoCommit { s with items := s.items.take p ++ fresh txt :: s.items.drop p, dirty := true } := by
+      simp [Edit.step, hp, hb']
+    rw [this, edited_texts s hnf]; simp [S.texts]
+  have hr : (step s (.objInsBefore h txt)).2 = .ok () := by simp [Edit.step, hp, hb']
   intro new
-  have hf := inserted_frame s.texts (i + 1) txt (by omega)
+  have hf := inserted_frame s.texts p txt (by omega)
   simp only [new, ht]
-  exact ⟨hr, trivial, hf.1, hf.2.2.2.1 i (by omega), hf.2.1, hf.2.2.1⟩
+  exact ⟨hr, trivial, hf.1, hf.2.1, hf.2.2.2.2 p (Nat.le_refl _), hf.2.2.1⟩
+
+/-- **`obj.insert_after(txt)`**: exactly one line is added, at position `p + 1`, directly
+after the object's line (which stays at `p`); everything else is unchanged and in order. -/
+theorem objInsertAfter_spec (s : S) (h p : Nat) (txt : Str) (hnf : NoFilter s)
+    (hp : posOf s.items h = some p)
+    (hb : ¬ (isBlank txt = true ∧ s.cfg.ignoreBlank = true)) :
+    let new := (step s (.objInsAfter h txt)).1.texts
+    (step s (.objInsAfter h txt)).2 = .ok () ∧
+    new = s.texts.take (p + 1) ++ txt :: s.texts.drop (p + 1) ∧
+    new.length = s.texts.length + 1 ∧ new[p]? = s.texts[p]? ∧ new[p + 1]? = some txt ∧
+    new.eraseIdx (p + 1) = s.texts := by
+  have hb' : (isBlank txt && s.cfg.ignoreBlank) = false := by
+    cases h1 : isBlank txt <;> cases h2 : s.cfg.ignoreBlank <;> simp_all
+  have hpl : p < s.texts.length := ((handle_position s h).1 p hp).1
+  have ht : (step s (.objInsAfter h txt)).1.texts
+      = s.texts.take (p + 1) ++ txt :: s.texts.drop (p + 1) := by
+    have : (step s (.objInsAfter h txt)).1
+        = autoCommit { s with items := s.items.take (p + 1) ++ fresh txt :: s.items.drop (p + 1), dirty := true } := by
+      simp [Edit.step, hp, hb']
+    rw [this, edited_texts s hnf]; simp [S.texts]
+  have hr : (step s (.objInsAfter h txt)).2 = .ok () := by simp [Edit.step, hp, hb']
+  intro new
+  have hf := inserted_frame s.texts (p + 1) txt (by omega)
+  simp only [new, ht]
+  exact ⟨hr, trivial, hf.1, hf.2.2.2.1 p (by omega), hf.2.1, hf.2.2.1⟩
 
 /-- A blank payload under `ignore_blank_lines` is refused with `InvalidParameters`. -/
-theorem objInsert_blank_refused (s : S) (i : Nat) (txt : Str)
-    (hd : s.dirty = false) (hi : i < s.texts.length)
+theorem objInsert_blank_refused (s : S) (h p : Nat) (txt : Str)
+    (hp : posOf s.items h = some p)
     (hb : isBlank txt = true ∧ s.cfg.ignoreBlank = true) :
-    step s (.objInsBefore i txt) = (s, .error .invalidParameters) ∧
-    step s (.objInsAfter i txt) = (s, .error .invalidParameters) := by
-  have hg : ¬ (s.dirty = true ∨ s.texts.length ≤ i) := by rw [hd]; simp; omega
-  simp [Edit.step, hg, hb.1, hb.2]
+    step s (.objInsBefore h txt) = (s, .error .invalidParameters) ∧
+    step s (.objInsAfter h txt) = (s, .error .invalidParameters) := by
+  simp [Edit.step, hp, hb.1, hb.2]
 
 /-! ## delete -/
 
@@ -217,9 +251,9 @@ theorem delete_spec (s : S) (i : Nat) (hnf : NoFilter s) (hd : s.dirty = false) 
     (step s (.delete i)).1.texts
       = (s.texts.zipIdx.filter (fun p => !(i :: allChildren s.tree i).contains p.2)).map (·.1) ∧
     ((step s (.delete i)).1.texts).Sublist s.texts := by
-  have hg : ¬ (s.dirty = true ∨ s.texts.length ≤ i) := by rw [hd]; simp; omega
+  have hg : ¬ (s.dirty = true ∨ s.items.length ≤ i) := by rw [hd, ← texts_length]; simp; omega
   have ht : (step s (.delete i)).1.texts = eraseAll s.texts (descendantsAndSelf s.tree i) := by
-    simp [Edit.step, hg, edited_texts s hnf]
+    simp [Edit.step, hg, edited_texts s hnf, eraseAll_map, items_map_text]
   refine ⟨by simp [Edit.step, hg], ?_, ?_⟩
   · rw [ht, eraseAll_eq_filter]; rfl
   · rw [ht]; exact eraseAll_sublist _ _
@@ -233,44 +267,53 @@ theorem delete_spec_forest (s : S) (i : Nat) (hnf : NoFilter s) (hd : s.dirty = 
     (step s (.delete i)).1.texts
       = (s.texts.zipIdx.filter (fun p => decide (p.2 ≠ i ∧ i ∉ ancestors s.tree p.2))).map (·.1) ∧
     (step s (.delete i)).1.texts.length + 1 + (allChildren s.tree i).length = s.texts.length := by
-  have hg : ¬ (s.dirty = true ∨ s.texts.length ≤ i) := by rw [hd]; simp; omega
+  have hg : ¬ (s.dirty = true ∨ s.items.length ≤ i) := by rw [hd, ← texts_length]; simp; omega
   have ht : (step s (.delete i)).1.texts = eraseAll s.texts (descendantsAndSelf s.tree i) := by
-    simp [Edit.step, hg, edited_texts s hnf]
+    simp [Edit.step, hg, edited_texts s hnf, eraseAll_map, items_map_text]
   rw [ht]
   exact ⟨delete_filter_forest hf s.texts i, delete_length_forest hf s.texts i hsz hi⟩
 
 /-! ## replace_text / re_sub -/
 
-/-- **`obj.replace_text(before, after)`** changes position `i` only, to `str.replace` of its
+/-- **`obj.replace_text(before, after)`** on the object `h`, currently at position `p` (also
+on a state with uncommitted changes): position `p` only changes, to `str.replace` of its
 text (`replacement_frame`). -/
-theorem replaceText_spec (s : S) (i : Nat) (before after : Str) (hnf : NoFilter s)
-    (hd : s.dirty = false) (hi : i < s.texts.length) :
-    (step s (.replaceText i before after)).2 = .ok () ∧
-    (step s (.replaceText i before after)).1.texts
-      = s.texts.set i (pyReplace before after (s.texts.getD i [])) := by
-  have hg : ¬ (s.dirty = true ∨ s.texts.length ≤ i) := by rw [hd]; simp; omega
-  simp [Edit.step, hg, edited_texts s hnf]
+theorem replaceText_spec (s : S) (h p : Nat) (before after : Str) (hnf : NoFilter s)
+    (hp : posOf s.items h = some p) :
+    (step s (.replaceText h before after)).2 = .ok () ∧
+    (step s (.replaceText h before after)).1.texts
+      = s.texts.set p (pyReplace before after (s.texts.getD p [])) := by
+  have : step s (.replaceText h before after)
+      = (autoCommit { s with items := setText s.items p (pyReplace before after (s.texts.getD p [])),
+                             dirty := true }, .ok ()) := by
+    simp only [Edit.step, hp]
+  rw [this]
+  refine ⟨rfl, ?_⟩
+  show (autoCommit _).texts = _
+  rw [edited_texts s hnf, setText_texts]; rfl
 
-/-- **`obj.re_sub(regex, repl)`** (with `newText = re.sub(regex, repl, text_i)` computed by
-the caller) on a committed, non-stale state: position `i` only changes, to the
-substituted text; a substitution that leaves the text as it is changes nothing at all
-(not even a commit); on a stale state it refuses with `NotImplementedError`. -/
-theorem reSub_spec (s : S) (i : Nat) (newText : Str) (hnf : NoFilter s)
-    (hd : s.dirty = false) (hi : i < s.texts.length) :
-    (s.stale = false → newText ≠ s.texts.getD i [] →
-      (step s (.reSub i newText)).2 = .ok () ∧
-      (step s (.reSub i newText)).1.texts = s.texts.set i newText) ∧
-    (s.stale = false → newText = s.texts.getD i [] → step s (.reSub i newText) = (s, .ok ())) ∧
-    (s.stale = true → step s (.reSub i newText) = (s, .error .notImplemented)) := by
-  have hg : ¬ (s.dirty = true ∨ s.texts.length ≤ i) := by rw [hd]; simp; omega
+/-- **`obj.re_sub(regex, repl)`** (with `newText = re.sub(regex, repl, text)` computed by the
+caller) on the object `h` at position `p` of a non-stale state: position `p` only
+changes, to the substituted text; a substitution that leaves the text as it is changes
+nothing at all (not even a commit); on a stale state it refuses with
+`NotImplementedError`. -/
+theorem reSub_spec (s : S) (h p : Nat) (newText : Str) (hnf : NoFilter s)
+    (hp : posOf s.items h = some p) :
+    (s.stale = false → newText ≠ s.texts.getD p [] →
+      (step s (.reSub h newText)).2 = .ok () ∧
+      (step s (.reSub h newText)).1.texts = s.texts.set p newText) ∧
+    (s.stale = false → newText = s.texts.getD p [] → step s (.reSub h newText) = (s, .ok ())) ∧
+    (s.stale = true → step s (.reSub h newText) = (s, .error .notImplemented)) := by
   refine ⟨fun hs hne => ?_, fun hs he => ?_, fun hs => ?_⟩
-  · have hne' : ¬ newText = s.texts[i]?.getD [] := by
-      simpa [List.getD_eq_getElem?_getD] using hne
-    simp [Edit.step, hg, hs, hne', edited_texts s hnf]
-  · have he' : newText = s.texts[i]?.getD [] := by
-      simpa [List.getD_eq_getElem?_getD] using he
-    simp [Edit.step, hg, hs, ← he']
-  · simp [Edit.step, hg, hs]
+  · have : step s (.reSub h newText)
+        = (autoCommit { s with items := setText s.items p newText, dirty := true }, .ok ()) := by
+      simp only [Edit.step, hp, hs, Bool.false_eq_true, if_false, if_neg hne]
+    rw [this]
+    refine ⟨rfl, ?_⟩
+    show (autoCommit _).texts = _
+    rw [edited_texts s hnf, setText_texts]; rfl
+  · simp only [Edit.step, hp, hs, Bool.false_eq_true, if_false, if_pos he]
+  · simp only [Edit.step, hp, hs, if_true]
 
 /-! ## append_to_family -/
 
@@ -290,8 +333,9 @@ theorem appendToFamily_spec (s : S) (i : Nat) (txt : Str) (ind : Int) (ai : Bool
       (cfi s.width (indentOf s.tree i) txt' = some 0 ∨ cfi s.width (indentOf s.tree i) txt' = some 1) := by
   intro txt'
   obtain ⟨h1, h2, h3, idx, h4, h5⟩ := step_appendToFamily_ok s i txt ind ai hok
-  refine ⟨h1, h2, h3, idx, h4, ?_, appendIndex_level _ _ _ _ idx h4⟩
-  rw [h5, edited_texts s hnf, pyInsert_eq, insertPos_natCast]
+  refine ⟨h1, by rw [texts_length]; exact h2, h3, idx, h4, ?_, appendIndex_level _ _ _ _ idx h4⟩
+  rw [h5, edited_texts s hnf, pyInsert_map, items_map_text, pyInsert_eq, insertPos_natCast]
+  rfl
 
 /-- **Child-level append to a target that has children** (the new line is not at the
 target's own indent): the line is one level deeper than the target and is inserted at
@@ -355,19 +399,27 @@ theorem appendToFamily_childless (s : S) (i : Nat) (txt : Str) (ind : Int) (ai :
 theorem errors_leave_state (s : S) (op : Op) (e : Err) (h : (step s op).2 = .error e) :
     (step s op).1 = s := step_error_unchanged s op e h
 
-/-- An object handle on a state with uncommitted changes, or beyond the end, is not
-executed (the model's `dirtyHandle`; the harness skips the call on both sides). -/
-theorem stale_handle_skipped (s : S) (i : Nat) (txt before after : Str) (ind : Int) (ai : Bool)
-    (h : s.dirty = true ∨ s.texts.length ≤ i) :
-    step s (.objInsBefore i txt) = (s, .error .dirtyHandle) ∧
-    step s (.objInsAfter i txt) = (s, .error .dirtyHandle) ∧
-    step s (.delete i) = (s, .error .dirtyHandle) ∧
-    step s (.appendToFamily i txt ind ai) = (s, .error .dirtyHandle) ∧
-    step s (.replaceText i before after) = (s, .error .dirtyHandle) ∧
-    step s (.reSub i txt) = (s, .error .dirtyHandle) := by
-  have hg : (s.dirty || decide (i ≥ s.texts.length)) = true := by
-    rcases h with h | h <;> simp [h]
-  simp only [Edit.step, hg, if_true, and_self]
+/-- A handle whose object is no longer in the list (deleted or popped since the last
+commit), and — for `delete` / `append_to_family`, which index by the object's stored line
+number — any handle on a state with uncommitted changes, is not executed (the model's
+`dirtyHandle`; the harness skips the call on both sides). -/
+theorem unresolved_handle_skipped (s : S) (h : Nat) (txt before after : Str) (ind : Int) (ai : Bool) :
+    (posOf s.items h = none →
+      step s (.objInsBefore h txt) = (s, .error .dirtyHandle) ∧
+      step s (.objInsAfter h txt) = (s, .error .dirtyHandle) ∧
+      step s (.replaceText h before after) = (s, .error .dirtyHandle) ∧
+      step s (.reSub h txt) = (s, .error .dirtyHandle)) ∧
+    (s.dirty = true ∨ s.texts.length ≤ h →
+      step s (.delete h) = (s, .error .dirtyHandle) ∧
+      step s (.appendToFamily h txt ind ai) = (s, .error .dirtyHandle)) := by
+  constructor
+  · intro hp
+    simp only [Edit.step, hp, and_self]
+  · intro hd
+    rw [texts_length] at hd
+    have hg : (s.dirty || decide (h ≥ s.items.length)) = true := by
+      rcases hd with hd | hd <;> simp [hd]
+    simp only [Edit.step, hg, if_true, and_self]
 
 /-- **Frame**: no operation changes the options; with auto-commit off only `commit`
 replaces the committed tree; `probe` changes nothing. -/
@@ -385,7 +437,7 @@ theorem reachable_tree_ok (cfg : Cfg) (auto : Bool) (width : Nat) (ls : List Str
     s.dirty = false → Forest s.tree ∧ s.tree.size = s.texts.length := by
   intro s hd
   have h := run_fresh _ ops (init_fresh cfg auto width ls) hd
-  refine ⟨?_, by rw [T.size, ← h.2]⟩
+  refine ⟨?_, by rw [T.size, ← h.2.1]⟩
   rw [h.1]
   exact bootstrap_forest _ _
 
@@ -453,7 +505,7 @@ example : (step (init { exCfg with ignoreBlank := true } true 1 exLines) (.listI
       = .error .invalidParameters ∧
     (step exOff (.listInsAfter true [] "x".toList)).2 = .error .valueError := by decide
 /-- object-level insert next to `Eth1` does not touch `Eth10` (hypotheses of `objInsert*_spec`) -/
-example : exOn.dirty = false ∧ 0 < exOn.texts.length ∧
+example : posOf exOn.items 0 = some 0 ∧
     (step exOn (.objInsAfter 0 " description x".toList)).1.texts =
       ["interface Eth1".toList, " description x".toList, " ip address 1.1.1.1".toList, "  secondary".toList,
        " shutdown".toList, "interface Eth10".toList] := by decide
@@ -492,7 +544,18 @@ example : let s := init { exCfg with ignoreBlank := true } true 1 exLines
     (step { s with auto := false } (.append "  ".toList)).1.texts.length = 6 ∧
     (step s (.append "  ".toList)).1.texts = exLines ∧
     (step s (.append "end".toList)).1.texts = exLines ++ ["end".toList] := by decide
-/-- refused: two levels deeper; a handle on a dirty state -/
+/-- object operations on a state with uncommitted changes (auto-commit off): after
+`insert(0, "x")` the object with handle 0 sits at position 1 and is found there; after
+it is popped, its handle no longer resolves -/
+def exDirty : S := (step exOff (.insert 0 "x".toList)).1
+example : exDirty.dirty = true ∧ posOf exDirty.items 0 = some 1 ∧ posOf exDirty.items 4 = some 5 ∧
+    (step exDirty (.objInsBefore 0 "y".toList)).1.texts.take 3 = ["x".toList, "y".toList, "interface Eth1".toList] ∧
+    (step exDirty (.replaceText 4 "Eth1".toList "Po".toList)).1.texts[5]? = some "interface Po0".toList ∧
+    posOf (step exDirty (.pop 1)).1.items 0 = none ∧
+    (step (step exDirty (.pop 1)).1 (.objInsAfter 0 "y".toList)).2 = .error .dirtyHandle := by decide
+/-- `handle_position`, second part: on a committed state a handle is its own position -/
+example : posOf exOn.items 3 = some 3 ∧ posOf exOn.items 5 = none := by decide
+/-- refused: two levels deeper; `delete` through a handle on a dirty state -/
 example : (step exOn (.appendToFamily 0 "   x".toList (-1) false)).2 = .error .notImplemented ∧
     (step (step exOff (.append "x".toList)).1 (.delete 0)).2 = .error .dirtyHandle := by decide
 
